@@ -41,7 +41,7 @@ def one(sid):
                     rp = json.load(open(wi[0].split('replay=')[1].split(' ')[0]))
                     fi = rp.get('failing_input') or {}
                     rep = dict(item=fi.get('item_source', '')[:300], op=fi.get('operation'), operands=fi.get('operands'),
-                               expected=str(fi.get('expected_by_specification'))[:200], observed=str(fi.get('observed_with_real_macro'))[:300])
+                               expected=str(fi.get('expected_by_specification') or fi.get('expected_by_model'))[:200], observed=str(fi.get('observed_with_real_macro'))[:300])
                 except Exception as e:
                     rep = repr(e)
             res[prop] = dict(exit=p.returncode, violations=len(v), with_input=len(wi), last=p.stdout.strip().split('\n')[-1][:160], replay=rep)
